@@ -377,7 +377,7 @@ func (x *Exec) callUnknownFuncValue(fr *Frame, pc *preparedCall, st *State, k fu
 
 // pureExternal lists dependency packages whose functions do not touch modelled heap.
 func pureExternal(name string) bool {
-	for _, p := range []string{"strings.", "strconv.", "fmt.", "errors.", "time.", "unicode", "math", "bytes.", "path.", "path/filepath.", "encoding/hex.", "encoding/base64.", "net.Split", "net.ParseIP", "net/http.CanonicalHeaderKey", "net/http.ParseTime", "net/http.StatusText", "slices.", "cmp.", "log/slog.", "crypto/", "golang.org/x/crypto/", "reservoir/utils/typeutils.", "reservoir/metrics.", "net/url.", "maps.", "encoding/json.Marshal", "os.", "io.", "sort.", "reflect."} {
+	for _, p := range []string{"strings.", "strconv.", "fmt.", "errors.", "time.", "unicode", "math", "bytes.", "path.", "path/filepath.", "encoding/hex.", "encoding/base64.", "net.Split", "net.ParseIP", "net/http.CanonicalHeaderKey", "net/http.ParseTime", "net/http.StatusText", "slices.", "cmp.", "log/slog.", "crypto/", "golang.org/x/crypto/", "reservoir/utils/typeutils.", "reservoir/metrics.", "net/url.", "maps.", "encoding/json.Marshal", "os.", "io.", "sort.", "reflect.", "bufio.", "net.Conn.", "net/http.Response.Write", "context."} {
 		if strings.HasPrefix(name, p) {
 			return true
 		}
@@ -564,6 +564,15 @@ func (x *Exec) typeSubst(fn *types.Func, pc *preparedCall, callerSub map[*types.
 		rt := pc.recvType
 		if p, ok := rt.Underlying().(*types.Pointer); ok {
 			rt = p.Elem()
+		}
+		// methods of an instantiated generic interface: the interface's own type parameters
+		if n, ok := types.Unalias(x.resolveType(rt)).(*types.Named); ok && n.TypeArgs() != nil {
+			if _, isI := n.Underlying().(*types.Interface); isI {
+				tps := n.Origin().TypeParams()
+				for i := 0; tps != nil && i < tps.Len() && i < n.TypeArgs().Len(); i++ {
+					sub[tps.At(i)] = x.resolveType(n.TypeArgs().At(i))
+				}
+			}
 		}
 		// walk embedded path: find the named type that declares the method
 		if n := x.findNamed(rt, fn); n != nil && n.TypeArgs() != nil {
@@ -759,26 +768,57 @@ func (x *Exec) callByContract(fr *Frame, pc *preparedCall, fc *FuncContract, nam
 		}
 	}
 	site := x.siteLabel(pc.e)
+	x.callsiteRequires(fr, st, pc, name, sig)
 	x.holdsPre(fr, st, fc, shortName(name), site, pc)
 	x.callBlocks(fr, st, fc, shortName(name), site, pc.e)
+	var reqTerms []*Term
 	for i, r := range fc.Requires {
 		t := x.specBool(env, r.Expr)
 		x.oblige(fr, st, "pre", fmt.Sprintf("%s/%d@%s", shortName(name), i+1, site), t, pc.e)
 		st.assume(t)
+		reqTerms = append(reqTerms, t)
 	}
 	if fc.Assumed {
 		x.Trusted["assumed contract of "+name] = true
 	}
 	old := st.clone()
 	if !fc.Pure {
+		x.checkCalleeFrame(fr, st, fc, shortName(name), pc.e, env)
 		x.applyAssigns(fr, st, fc, env)
 	}
+	x.calleeMayAllocate(st)
 	results := x.freshResults(st, sig, sanitize(fn.Name()))
 	x.bindResults(env, sig, results)
 	env.st = st
 	env.old = old
+	var ensTerms []*Term
 	for _, e := range fc.Ensures {
-		st.assume(x.specBool(env, e.Expr))
+		t := x.specBool(env, e.Expr)
+		ensTerms = append(ensTerms, t)
+		st.assume(t)
+	}
+	// consistency probes: for every conditional clause of the callee, its antecedent must be
+	// satisfiable together with the callee's preconditions and all its clauses - on their own,
+	// without the caller's path condition (a clause set that kills, say, the success path of a
+	// callee would silently prove everything after the call)
+	if fr.top != nil && x.cur != nil {
+		for i, e := range fc.Ensures {
+			if e.Expr.Kind != SBinary || e.Expr.Op != "==>" {
+				continue
+			}
+			nm := fmt.Sprintf("%s#reach:%s/%d", x.cur.Name, shortName(name), i+1)
+			if x.reachCount == nil {
+				x.reachCount = map[string]int{}
+			}
+			if x.reachCount[nm] >= 1 {
+				continue
+			}
+			x.reachCount[nm]++
+			a := x.specBool(env, e.Expr.X)
+			as := append(append(append([]*Term(nil), reqTerms...), ensTerms...), a)
+			x.Obls = append(x.Obls, &Obligation{Func: x.cur.Name, Kind: "reach", Label: fmt.Sprintf("%s/%d", shortName(name), i+1), Name: nm,
+				Assume: as, Goal: TFalse, Cover: true, Soft: true, Props: x.cur.Props})
+		}
 	}
 	x.tsub = saved
 	x.assumeStable(fr, st, fc, pc)
@@ -818,6 +858,14 @@ func (x *Exec) applyAssigns(fr *Frame, st *State, fc *FuncContract, env *SpecEnv
 		}
 		if strings.HasPrefix(a, "ghost:") {
 			name := strings.TrimPrefix(a, "ghost:")
+			if name == "upstream" {
+				for _, g := range ghostInts {
+					if strings.HasPrefix(g, "up") {
+						st.ghost[g] = IntV{Var(x.fresh("G_"+g), SInt)}
+					}
+				}
+				continue
+			}
 			if iv, ok := st.ghost[name].(IntV); ok {
 				_ = iv
 				st.ghost[name] = IntV{Var(x.fresh("G_"+name), SInt)}
@@ -825,6 +873,40 @@ func (x *Exec) applyAssigns(fr *Frame, st *State, fc *FuncContract, env *SpecEnv
 			}
 			old := st.ghostArr(name, SInt)
 			st.setGhostArr(name, Var(x.fresh("G_"+name), old.Sort))
+			continue
+		}
+		if strings.HasPrefix(a, "new:") {
+			// only objects the callee allocates are written: existing ones keep their content
+			pat := strings.TrimPrefix(a, "new:")
+			for _, key := range st.heapKeys() {
+				if strings.Contains(key, pat) {
+					old := st.heap[key]
+					nw := Var(x.fresh("Hn_"+sanitize(key)), old.Sort)
+					q := x.qvar("qn")
+					st.assumeRaw(Forall([]*Term{q}, Implies(Select(st.alloc, q), Eq(Select(nw, q), Select(old, q)))))
+					st.heap[key] = nw
+				}
+			}
+			st.lazyHavoc = append(st.lazyHavoc, lazyHavocRec{pat: pat, tag: x.fresh("lh"), newOnly: true, alloc: st.alloc})
+			continue
+		}
+		if i := strings.Index(a, "@"); i > 0 && env != nil {
+			// only the object a parameter points to is written
+			pat, pname := a[:i], a[i+1:]
+			addr, ok := x.frameObj(env, pname)
+			if !ok {
+				panic(x.unsupported("assigns " + a + ": " + pname + " is not a pointer or map parameter"))
+			}
+			for _, key := range st.heapKeys() {
+				if strings.Contains(key, pat) {
+					old := st.heap[key]
+					nw := Var(x.fresh("Ho_"+sanitize(key)), old.Sort)
+					q := x.qvar("qo")
+					st.assumeRaw(Forall([]*Term{q}, Implies(Ne(q, addr), Eq(Select(nw, q), Select(old, q)))))
+					st.heap[key] = nw
+				}
+			}
+			st.lazyHavoc = append(st.lazyHavoc, lazyHavocRec{pat: pat, tag: x.fresh("lh"), only: addr})
 			continue
 		}
 		// a names a heap key prefix, e.g. "EntryMetadata.Expires"
@@ -891,8 +973,10 @@ func (x *Exec) callFnFieldContract(fr *Frame, pc *preparedCall, fc *FuncContract
 	}
 	old := st.clone()
 	if !fc.Pure {
+		x.checkCalleeFrame(fr, st, fc, fc.Name, pc.e, env)
 		x.applyAssigns(fr, st, fc, env)
 	}
+	x.calleeMayAllocate(st)
 	results := x.freshResults(st, sig, "fnfield")
 	for _, g := range fc.Ghost {
 		if g == "result shardlock" && len(results) == 1 {
@@ -1226,4 +1310,178 @@ func (x *Exec) assumeStable(fr *Frame, st *State, fc *FuncContract, pc *prepared
 		st.assume(x.specBool(env, e))
 		x.Trusted["callback rule: predicates declared stable are re-assumed after calls to callbacks-only functions (their callbacks are verified to preserve them)"] = true
 	}
+}
+
+// callsiteRequires: "ghost callsite-requires [Cxx] <callee> <expr>" in the contract of the
+// function under verification is an obligation at each of its calls of <callee> (the last
+// component of the callee's name, e.g. fetchUpstream or Cache.Get).  The expression is
+// evaluated over the caller's locals; arg_<param> names the callee's arguments.
+func (x *Exec) callsiteRequires(fr *Frame, st *State, pc *preparedCall, name string, sig *types.Signature) {
+	if fr.top == nil || fr.top.Contract == nil {
+		return
+	}
+	short := shortName(name)
+	if i := strings.Index(short, "."); i >= 0 {
+		short = short[i+1:] // drop the package
+	}
+	last := short
+	if i := strings.LastIndex(short, "."); i >= 0 {
+		last = short[i+1:]
+	}
+	n := 0
+	for _, g := range fr.top.Contract.Ghost {
+		tag := ""
+		if strings.HasPrefix(g, "callsite-requires [") {
+			if j := strings.Index(g, "]"); j > 0 {
+				tag = g[len("callsite-requires ["):j]
+				g = "callsite-requires" + g[j+1:]
+			}
+		}
+		var rest string
+		switch {
+		case strings.HasPrefix(g, "callsite-requires "+short+" "):
+			rest = strings.TrimPrefix(g, "callsite-requires "+short+" ")
+		case strings.HasPrefix(g, "callsite-requires "+last+" "):
+			rest = strings.TrimPrefix(g, "callsite-requires "+last+" ")
+		default:
+			continue
+		}
+		n++
+		e, err := ParseSpec(rest)
+		if err != nil {
+			panic(x.unsupported("callsite-requires: " + err.Error()))
+		}
+		env := x.localEnv(fr, st, pc.e)
+		for i := 0; i < sig.Params().Len() && i < len(pc.args); i++ {
+			env.vars["arg_"+sig.Params().At(i).Name()] = pc.args[i]
+		}
+		if pc.recv != nil {
+			env.vars["arg_self"] = pc.recv
+		}
+		x.oblige(fr, st, "callsite", fmt.Sprintf("%s/%d@%s", last, n, x.siteLabel(pc.e)), x.specBool(env, e), pc.e)
+		x.Obls[len(x.Obls)-1].Clause = e
+		x.Obls[len(x.Obls)-1].Tag = tag
+	}
+}
+
+// checkCalleeFrame: a callee's declared frame must lie within the frame of the function
+// under verification (patterns are substrings of heap keys: a caller pattern covers a
+// callee pattern when it is a substring of it).
+func (x *Exec) checkCalleeFrame(fr *Frame, st *State, fc *FuncContract, name string, n ast.Node, env *SpecEnv) {
+	if fr.top == nil || fr.top.Contract == nil {
+		return
+	}
+	top := fr.top.Contract
+	if !top.Pure && len(top.Assigns) == 0 {
+		return
+	}
+	if len(fc.Assigns) == 0 {
+		return // havocHeap: reported by the frame check at return
+	}
+	for _, a := range fc.Assigns {
+		if a == "nothing" {
+			continue
+		}
+		covered := false
+		if i := strings.Index(a, "@"); i > 0 && !top.Pure {
+			// callee writes one object only: covered by a type-level pattern of the caller, by a
+			// one-object pattern of the caller naming the same object, or - when the caller may
+			// write new objects of that type - by the object being one the caller allocated
+			pat, pname := a[:i], a[i+1:]
+			var alts []*Term
+			cv, okc := x.frameObj(env, pname)
+			for _, b := range top.Assigns {
+				if strings.HasPrefix(b, "ghost:") || b == "nothing" {
+					continue
+				}
+				if strings.HasPrefix(b, "new:") {
+					if okc && strings.Contains(pat, strings.TrimPrefix(b, "new:")) {
+						alts = append(alts, Not(Select(Var("alloc0", ArrOf(SBool)), cv)))
+					}
+					continue
+				}
+				if j := strings.Index(b, "@"); j > 0 {
+					if tv, ok2 := x.frameObj(x.entrySpecEnv(fr.top), b[j+1:]); ok2 && okc && strings.Contains(pat, b[:j]) {
+						alts = append(alts, Eq(cv, tv))
+					}
+					continue
+				}
+				if strings.Contains(pat, b) {
+					covered = true
+				}
+			}
+			if !covered {
+				x.oblige(fr, st, "frame", fmt.Sprintf("callee %s assigns %s@%s", name, a, x.siteLabel(n)), Or(alts...), n)
+			}
+			continue
+		}
+		if !top.Pure {
+			for _, b := range top.Assigns {
+				if strings.Contains(b, "@") {
+					continue
+				}
+				if strings.HasPrefix(a, "new:") && !strings.HasPrefix(b, "ghost:") && b != "nothing" && strings.Contains(strings.TrimPrefix(a, "new:"), strings.TrimPrefix(b, "new:")) {
+					covered = true
+				}
+				if strings.HasPrefix(b, "new:") {
+					continue
+				}
+				if b == a || (!strings.HasPrefix(a, "ghost:") && !strings.HasPrefix(b, "ghost:") && b != "nothing" && strings.Contains(a, b)) {
+					covered = true
+				}
+				if b == "ghost:upstream" && strings.HasPrefix(a, "ghost:up") {
+					covered = true
+				}
+			}
+		}
+		if !covered {
+			x.oblige(fr, st, "frame", fmt.Sprintf("callee %s assigns %s@%s", name, a, x.siteLabel(n)), TFalse, n)
+		}
+	}
+}
+
+// objAddr: the address of the object a pointer or map value denotes.
+func objAddr(v Value) (*Term, bool) {
+	switch vv := v.(type) {
+	case PtrV:
+		return vv.Addr, true
+	case MapV:
+		if vv.Const == nil {
+			return vv.ID, true
+		}
+	}
+	return nil, false
+}
+
+// calleeMayAllocate: a callee may have allocated objects; the set of allocated
+// addresses after the call is some superset of the one before.
+func (x *Exec) calleeMayAllocate(st *State) {
+	na := Var(x.fresh("alloc"), ArrOf(SBool))
+	q := x.qvar("qal")
+	st.assumeRaw(Forall([]*Term{q}, Implies(Select(st.alloc, q), Select(na, q))))
+	st.alloc = na
+}
+
+// frameObj evaluates the object expression of a one-object frame pattern ("T@expr").
+func (x *Exec) frameObj(env *SpecEnv, expr string) (*Term, bool) {
+	if env == nil {
+		return nil, false
+	}
+	if v, ok := env.vars[expr]; ok {
+		return objAddr(v)
+	}
+	e, err := ParseSpec(expr)
+	if err != nil {
+		panic(x.unsupported("assigns @" + expr + ": " + err.Error()))
+	}
+	return objAddr(x.specEval(env, e))
+}
+
+// entrySpecEnv: the parameters of the function under verification over its entry state.
+func (x *Exec) entrySpecEnv(ctx *FuncCtx) *SpecEnv {
+	env := &SpecEnv{x: x, st: ctx.Entry.clone(), vars: map[string]Value{}, bound: map[string]Value{}, pkgPath: ctx.Pkg.PkgPath}
+	for k, v := range ctx.Params {
+		env.vars[k] = v
+	}
+	return env
 }
